@@ -2,10 +2,16 @@
 #[verifier::external_body]
 pub struct Error { inner: () }
 
+impl Error {
+    #[verifier::external_body] pub fn new(_kind: error::Kind) -> Error { Error { inner: () } }
+    #[verifier::external_body] pub fn with<S>(self, _source: S) -> Error { self }
+}
+
 pub mod error {
     use super::*;
     use vstd::prelude::*;
     verus! {
+    pub enum Kind { Parse, Rule, Token, Validation }
     #[verifier::external_body] pub fn parse_invalid_expr<E>(_e: E) -> Error { Error { inner: () } }
     #[verifier::external_body] pub fn parse_invalid_ident<E>(_e: E) -> Error { Error { inner: () } }
     #[verifier::external_body] pub fn parse_invalid_token<E>(_e: E) -> Error { Error { inner: () } }
